@@ -2191,7 +2191,12 @@ def check_C20(tier, seed):
     scen = []
     for i in range(16 if tier == "quick" else 200):
         K = 5
-        lists = [rng.sample(range(1, K + 1), rng.randrange(1, 5)) for _ in range(rng.randrange(1, 4))]
+        if i % 4 == 3:      # four or five lists (short ones): the product is enumerated with the first list varying slowest
+            lists = [rng.sample(range(1, K + 1), rng.randrange(1, 3)) for _ in range(rng.randrange(4, 6))]
+            lists[0] = rng.sample(range(1, K + 1), 2)       # (both ends vary, so that the order is observable)
+            lists[-1] = rng.sample(range(1, K + 1), 2)
+        else:
+            lists = [rng.sample(range(1, K + 1), rng.randrange(1, 5)) for _ in range(rng.randrange(1, 4))]
         prod = [[]]
         for l in lists:
             prod = [p + [c] for p in prod for c in l]
